@@ -9,7 +9,7 @@ import evo
 
 PROP = 'C09'
 THEOREMS = ['C09_primitive_table', 'C09_reflexive', 'C09_mutual_symmetric', 'C09_reader_field_added_with_default',
-            'C09_reader_field_removed', 'C09_reader_union_branch_added', 'C09_full_unsound_refuted', 'C09_alias_unsound_refuted',
+            'C09_reader_field_removed', 'C09_reader_union_branch_added', 'C09_full_sound_fragment', 'C09_fragment_example', 'C09_full_unsound_refuted', 'C09_alias_unsound_refuted',
             'C09_examples']
 RULE = ('(W, R) pairs from the evolution generator of C08 and all ordered pairs of a 40-schema enumeration, x values of W; '
         'non-trivial = distinct (W, R, value) with R != W, verdict Full and a successful read')
